@@ -143,19 +143,36 @@ func executeOnce(t *testing.T, eng *Engine, prop string, sc any, ch *simrt.Choic
 
 	var res *simrt.Result
 
-	func() {
+	// synctest.Test ends the calling goroutine (t.FailNow) when the race detector
+	// reported something during the bubble: run it on a goroutine of its own so that
+	// the worker survives and can attribute the report to this run.
+	finished := make(chan any, 1)
+
+	go func() {
+		var failure any
+
 		defer func() {
-			// a run that is abandoned with goroutines still parked makes the bubble
-			// end with this panic; later bubbles are unaffected
+			// a run that is abandoned with goroutines still parked makes the bubble end
+			// with a "blocked goroutines remain" panic; later bubbles are unaffected
 			if r := recover(); r != nil && !strings.Contains(fmt.Sprint(r), "blocked goroutines remain") {
-				panic(r)
+				failure = r
 			}
+
+			finished <- failure
 		}()
 
 		synctest.Test(t, func(t *testing.T) {
 			res = simrt.Run(cfg, ch, main)
 		})
 	}()
+
+	if failure := <-finished; failure != nil {
+		panic(failure)
+	}
+
+	if res == nil {
+		panic("simulated run produced no result")
+	}
 
 	v := eng.Check(prop, sc, res)
 
@@ -214,6 +231,19 @@ func workerRun(t *testing.T) {
 
 	digest := uint64(1469598103934665603)
 
+	var hashLog *os.File
+
+	if hp := os.Getenv("SIM_HASHES"); hp != "" {
+		f, err := os.Create(hp)
+		if err != nil {
+			t.Fatal(err)
+		}
+
+		defer f.Close()
+
+		hashLog = f
+	}
+
 	for idx := from; idx < to; idx += stride {
 		if time.Now().After(deadline) {
 			sum.To = idx
@@ -239,6 +269,10 @@ func workerRun(t *testing.T) {
 		res, v := executeOnce(t, eng, prop, sc, ch, false)
 
 		digest = (digest ^ res.Hash) * 1099511628211
+
+		if hashLog != nil {
+			fmt.Fprintf(hashLog, "%d %s %016x %d %d\n", idx, name, res.Hash, res.Steps, res.SimNanos)
+		}
 
 		if v.Skipped != "" {
 			sum.Skipped++
